@@ -77,6 +77,13 @@ CLAIMED = {
             'above U+10FFFF): nothing decoded is emitted, the error is counted once and marked or reported at its start; every input read is '
             'bounds-guarded and every iteration advances. First sequence of the input only.',
             'decision tables by abstract interpretation over interval classes + iterator typestate (guard domination)', '§5 C12'),
+    'C15': ('other',
+            'Decides the "never wraps" clause where it is visible in the code: interval abstract interpretation with adaptive cell splitting '
+            'over every instantiation of SafeDurationCast (no signed overflow, value returned only unwrapped and equal to the exact product/quotient, '
+            'otherwise out_of_range), linear-constraint analysis of both SafeAddDuration overloads, from_chars error-code mapping, the calendar '
+            'acceptance table of the datetime parser over (year mod 400, month, day) and the negation of parsed magnitudes. That an accepted text '
+            'yields the denoted instant is calendar arithmetic and is not decided.',
+            'abstract interpretation: interval domain with adaptive partitioning, linear constraints (Fourier-Motzkin), finite quotient tables', '§5 C15'),
     'C17': ('other',
             'Validator plumbing decided structurally per instantiation (fold order over all validators, message forwarding, grouping/append, '
             'cap comparison, final throw iff non-empty map, entry-point protocol) and the built-in validators decided by abstract interpretation '
